@@ -38,6 +38,7 @@ type cinstr struct {
 	ins ssa.Instruction
 	ops []opnd
 	dst int
+	k1  int64 // precomputed: field offset / element size / type size
 }
 
 type FnInfo struct {
@@ -77,6 +78,8 @@ type Interp struct {
 	stack  []*ssa.Function
 	initMode bool
 	initHook func(fn *ssa.Function) bool
+	arena  []Val
+	sp     int
 	hookBypass bool
 }
 
@@ -162,6 +165,14 @@ func (p *Program) info(fn *ssa.Function) *FnInfo {
 				} else {
 					ci.ops[k] = opnd{reg: -1, cv: p.staticVal(*r)}
 				}
+			}
+			switch x := ins.(type) {
+			case *ssa.FieldAddr:
+				st := x.X.Type().Underlying().(*types.Pointer).Elem().Underlying().(*types.Struct)
+				ci.k1 = p.fieldOffLocked(st, x.Field)
+			case *ssa.Field:
+				st := x.X.Type().Underlying().(*types.Struct)
+				ci.k1 = p.fieldOffLocked(st, x.Field)
 			}
 			cis[ii] = ci
 		}
@@ -273,7 +284,22 @@ func (in *Interp) call(fn *ssa.Function, args []Val, free []Val) Val {
 		in.end("unsupported", "call depth exceeded at %s", fn.String())
 	}
 	info := in.prog.info(fn)
-	fr := &Frame{fn: fn, info: info, regs: make([]Val, info.nregs)}
+	// register file: LIFO arena
+	need := info.nregs
+	if in.sp+need > len(in.arena) {
+		na := make([]Val, 2*len(in.arena)+need+4096)
+		// old frames keep their slices into the old arena; only new frames use the new one
+		in.arena = na
+		in.sp = 0
+	}
+	arenaAtEntry := in.arena
+	spAtEntry := in.sp
+	regs := in.arena[in.sp : in.sp+need : in.sp+need]
+	for i := range regs {
+		regs[i] = Val{}
+	}
+	in.sp += need
+	fr := &Frame{fn: fn, info: info, regs: regs}
 	for i, r := range info.params {
 		if i < len(args) {
 			fr.regs[r] = args[i]
@@ -290,6 +316,9 @@ func (in *Interp) call(fn *ssa.Function, args []Val, free []Val) Val {
 		fmt.Fprintf(os.Stderr, "%*scall %s %v\n", in.depth, "", fn.String(), dbgVals(args))
 	}
 	res := in.run(fr)
+	if &in.arena[0] == &arenaAtEntry[0] {
+		in.sp = spAtEntry
+	}
 	if traceCalls && !in.initMode {
 		fmt.Fprintf(os.Stderr, "%*sret  %s -> %v\n", in.depth, "", fn.String(), dbgVals([]Val{res}))
 	}
@@ -496,7 +525,7 @@ func (in *Interp) exec(fr *Frame, ci *cinstr, ins ssa.Instruction) {
 	case *ssa.Field:
 		agg := in.get(fr, ci.ops[0])
 		st := x.X.Type().Underlying().(*types.Struct)
-		off := in.fieldOff(st, x.Field)
+		off := ci.k1
 		ft := st.Field(x.Field).Type()
 		if agg.x == nil {
 			res = in.zeroVal(ft)
@@ -512,9 +541,8 @@ func (in *Interp) exec(fr *Frame, ci *cinstr, ins ssa.Instruction) {
 	case *ssa.FieldAddr:
 		pv := in.get(fr, ci.ops[0])
 		p := in.ptrOf(pv, "field address")
-		st := x.X.Type().Underlying().(*types.Pointer).Elem().Underlying().(*types.Struct)
 		np := *p
-		np.off += in.fieldOff(st, x.Field)
+		np.off += ci.k1
 		res = Val{x: &np}
 	case *ssa.Index:
 		res = in.indexVal(x, in.get(fr, ci.ops[0]), in.get(fr, ci.ops[1]))
@@ -631,7 +659,12 @@ func (in *Interp) concInt(v Val, t types.Type, what string) int64 {
 		}
 		return int64(v.c)
 	case *Term:
-		c := in.ex.concretize(in, x, what)
+		var c uint64
+		if kv, ok := in.ex.known[x]; ok {
+			c = kv
+		} else {
+			c = in.ex.concretize(in, x, what)
+		}
 		if isSigned(t) {
 			return sext(c, x.w)
 		}
